@@ -4,24 +4,29 @@ import CollectionsC.Proofs.ArrayMem
 /-! # C06 (array part) — memory safety and leak freedom of `CC_Array`
 
 Statements only.  `Mem.fault` is the model's sticky flag for "a slot index at or beyond the allocated
-slot count, or a release with nothing live"; `Mem.live` counts the blocks owned through the
-configured allocator.  An array owns two blocks (header and buffer).
+slot count, a `memmove` range leaving the block, or a release with nothing owned"; every slot read and
+every `memmove` of the model is preceded by its own bounds check.  An array owns two blocks (header
+and buffer) of **its allocator triple** `a.triple`; `Arr.own t m` is the block counter of triple `t`
+(`Mem.live` for the configured allocators, `Mem.liveLibc` for the C library).
 
 (a) no operation sets `fault` from a state satisfying `Arr.Inv`, per call and over histories, for
-every allocator schedule; (b) every call of the C01 vocabulary keeps `live` (re-allocations acquire
-one block and release one), builders add exactly the two blocks of the new array, `destroy` releases
-two; constructor → any history → `destroy` returns `live` to its initial value; (c) the callback
+every allocator schedule; (b) every call of the C01 vocabulary keeps the array's own counter
+(re-allocations acquire one block and release one) and never touches the other allocator's;
+builders add exactly the two blocks of the new array, `destroy` releases two;
+constructor → any history → `destroy` returns the counter to its initial value; (c) the callback
 variants hand every held element to the callback exactly once, in index order. -/
 namespace CC.Properties.C06Array
 open CC
 open CC.Spec.Seq (Cfg Op Out IterOp)
 
-/-- (a)+(b) per call: no fault, ledger balanced, invariant kept -/
+/-- (a)+(b) per call: no fault, own counter balanced, other allocator untouched, invariant kept -/
 theorem step_nofault_ledger (cfg : Cfg) (a : Arr) (op : Op) (m : Mem) (hinv : a.Inv)
     (hsort : ∀ xs, (cfg.sortFn xs).length = xs.length) :
-    (a.step cfg op m).2.2.fault = m.fault ∧ (a.step cfg op m).2.2.live = m.live ∧ (a.step cfg op m).2.1.Inv := by
-  obtain ⟨_, _, _, s4, s5, s6, _⟩ := C01.step_refines cfg a op m hinv hsort
-  exact ⟨s6, s5, s4⟩
+    (a.step cfg op m).2.2.fault = m.fault ∧ Arr.own a.triple (a.step cfg op m).2.2 = Arr.own a.triple m ∧
+    Arr.Foreign a.triple m (a.step cfg op m).2.2 ∧ (a.step cfg op m).2.1.Inv := by
+  obtain ⟨_, _, _, s4, _, s6, _⟩ := C01.step_refines cfg a op m hinv hsort
+  obtain ⟨l1, l2, _⟩ := Arr.step_led cfg a op m hinv
+  exact ⟨s6, by simpa using l1, l2, s4⟩
 
 /-- (a) over histories, for every schedule of refusals -/
 theorem history_nofault (cfg : Cfg) (ops : List Op) (a : Arr) (m : Mem) (hinv : a.Inv)
@@ -30,68 +35,83 @@ theorem history_nofault (cfg : Cfg) (ops : List Op) (a : Arr) (m : Mem) (hinv : 
   obtain ⟨_, _, h3, _, _, h6⟩ := C01.history_refines cfg ops a m hinv hsort
   exact ⟨by rw [h6]; exact hf, h3⟩
 
-/-- (b) over histories: the array still owns exactly its two blocks -/
+/-- (b) over histories: the array still owns exactly its two blocks, and the other allocator was
+never used -/
 theorem history_ledger (cfg : Cfg) (ops : List Op) (a : Arr) (m : Mem) (hinv : a.Inv)
-    (hsort : ∀ xs, (cfg.sortFn xs).length = xs.length) : (a.run cfg ops m).2.2.live = m.live :=
-  (C01.history_refines cfg ops a m hinv hsort).2.2.2.2.1
-
-/-- **no leak**: construct, run any history under any refusal schedule, destroy — the ledger is back
-where it started and nothing faulted -/
-theorem destroy_releases_all (cfg : Cfg) (cap : Nat) (grow : Nat → Nat) (exGe : Nat → Bool) (m0 : Mem) (a0 : Arr)
-    (hnew : (Arr.new cap grow exGe m0).2.1 = some a0) (ops : List Op)
     (hsort : ∀ xs, (cfg.sortFn xs).length = xs.length) :
-    let r := a0.run cfg ops (Arr.new cap grow exGe m0).2.2
-    (r.2.1.destroy r.2.2).live = m0.live ∧ (r.2.1.destroy r.2.2).fault = m0.fault := by
+    Arr.own a.triple (a.run cfg ops m).2.2 = Arr.own a.triple m ∧ Arr.Foreign a.triple m (a.run cfg ops m).2.2 :=
+  ⟨(Arr.run_led cfg ops a m hinv hsort).1, (Arr.run_led cfg ops a m hinv hsort).2.1⟩
+
+/-- **no leak**: construct (on either triple), run any history under any refusal schedule, destroy —
+the triple's block counter is back where it started and nothing faulted -/
+theorem destroy_releases_all (cfg : Cfg) (cap : Nat) (grow : Nat → Nat) (exGe : Nat → Bool) (m0 : Mem) (t : Triple)
+    (a0 : Arr) (hnew : (Arr.new cap grow exGe m0 t).2.1 = some a0) (ops : List Op)
+    (hsort : ∀ xs, (cfg.sortFn xs).length = xs.length) :
+    let r := a0.run cfg ops (Arr.new cap grow exGe m0 t).2.2
+    Arr.own t (r.2.1.destroy r.2.2) = Arr.own t m0 ∧ (r.2.1.destroy r.2.2).fault = m0.fault := by
   intro r
-  obtain ⟨_, _, _, h4, h5⟩ := C01.new_history_refines cfg cap grow exGe m0 a0 hnew ops hsort
-  obtain ⟨d1, d2⟩ := Arr.destroy_spec r.2.1 r.2.2 (by show 2 ≤ (a0.run cfg ops _).2.2.live; omega)
-  exact ⟨by rw [d1]; show (a0.run cfg ops _).2.2.live - 2 = _; omega, by rw [d2]; exact h5⟩
+  obtain ⟨_, _, h3, h4, h5, h6⟩ := C01.new_history_refines cfg cap grow exGe m0 t a0 hnew ops hsort
+  have htr : r.2.1.triple = t := by
+    have := (Arr.run_led cfg ops a0 (Arr.new cap grow exGe m0 t).2.2
+      (by rcases Arr.new_spec cap grow exGe m0 t with ⟨_, h, _⟩ | ⟨_, h, _⟩ | ⟨_, _, r', h1, _, hi, _⟩
+          · rw [h] at hnew; simp at hnew
+          · rw [h] at hnew; simp at hnew
+          · rw [h1] at hnew; simp only [Option.some.injEq] at hnew; rw [← hnew]; exact hi) hsort).2.2.2
+    show (a0.run cfg ops _).2.1.triple = t
+    rw [this, h6]
+  obtain ⟨d1, d2⟩ := Arr.destroy_spec r.2.1 r.2.2 (by rw [htr]; show 2 ≤ Arr.own t (a0.run cfg ops _).2.2; omega)
+  rw [htr] at d1
+  exact ⟨by rw [d1]; show Arr.own t (a0.run cfg ops _).2.2 - 2 = _; omega, by rw [d2]; exact h5⟩
 
 /-- a failed construction leaves nothing behind -/
-theorem new_failed_leaves_nothing (cap : Nat) (grow : Nat → Nat) (exGe : Nat → Bool) (m : Mem)
-    (h : (Arr.new cap grow exGe m).2.1 = none) :
-    (Arr.new cap grow exGe m).2.2.live = m.live ∧ (Arr.new cap grow exGe m).2.2.fault = m.fault := by
-  rcases Arr.new_spec cap grow exGe m with ⟨_, _, s3, _⟩ | ⟨_, _, _, _, s3, s4⟩ | ⟨_, _, r, h1, _⟩
+theorem new_failed_leaves_nothing (cap : Nat) (grow : Nat → Nat) (exGe : Nat → Bool) (m : Mem) (t : Triple)
+    (h : (Arr.new cap grow exGe m t).2.1 = none) :
+    Arr.own t (Arr.new cap grow exGe m t).2.2 = Arr.own t m ∧ (Arr.new cap grow exGe m t).2.2.fault = m.fault := by
+  rcases Arr.new_spec cap grow exGe m t with ⟨_, _, s3, _⟩ | ⟨_, _, _, _, s3, s4⟩ | ⟨_, _, r, h1, _⟩
   · rw [s3]; exact ⟨rfl, rfl⟩
   · exact ⟨s3, s4⟩
   · rw [h1] at h; simp at h
 
-/-- (b) builders: the new array's two blocks are the only change; a failed builder changes nothing;
-no builder faults -/
+/-- (b) builders: the new array's two blocks — of the **source's triple** — are the only change; a
+failed builder changes nothing; no builder faults -/
 theorem builders_ledger (a : Arr) (b e : Nat) (cp : Nat → Nat) (p : Nat → Bool) (m : Mem) (hinv : a.Inv) :
-    ((a.subarray b e m).2.2.live = m.live + (if (a.subarray b e m).2.1.isSome then 2 else 0) ∧
-      (a.subarray b e m).2.2.fault = m.fault) ∧
-    ((a.copyShallow m).2.2.live = m.live + (if (a.copyShallow m).2.1.isSome then 2 else 0) ∧
-      (a.copyShallow m).2.2.fault = m.fault) ∧
-    ((a.copyDeep cp m).2.2.2.live = m.live + (if (a.copyDeep cp m).2.1.isSome then 2 else 0) ∧
-      (a.copyDeep cp m).2.2.2.fault = m.fault) ∧
-    ((a.filter p m).2.2.2.live = m.live + (if (a.filter p m).2.1.isSome then 2 else 0) ∧
-      (a.filter p m).2.2.2.fault = m.fault) := by
-  refine ⟨?_, ?_, ?_, ?_⟩
-  · rcases Arr.subarray_spec a b e m hinv with ⟨_, _, s2, s3⟩ | ⟨_, _, _, s2, s3, s4⟩ | ⟨_, _, _, r, h1, _, _, _, _, s3, s4⟩
-    · rw [s2, s3]; simp
-    · rw [s2]; simp [s3, s4]
-    · rw [h1]; simp [s3, s4]
-  · rcases Arr.copyShallow_spec a m hinv with ⟨_, _, s2, s3, s4⟩ | ⟨_, _, r, h1, _, _, _, _, s3, s4⟩
-    · rw [s2]; simp [s3, s4]
-    · rw [h1]; simp [s3, s4]
-  · rcases Arr.copyDeep_spec cp a m hinv with ⟨_, _, s2, s3, s4⟩ | ⟨_, _, r, h1, _, _, _, _, _, s3, s4⟩
-    · rw [s2]; simp [s3, s4]
-    · rw [h1]; simp [s3, s4]
-  · rcases Arr.filter_spec p a m hinv with ⟨_, _, s2, s3⟩ | ⟨_, _, _, s2, s3, s4⟩ | ⟨_, _, _, r, h1, _, _, _, _, _, s3, s4⟩
-    · rw [s2, s3]; simp
-    · rw [s2]; simp [s3, s4]
-    · rw [h1]; simp [s3, s4]
+    (Arr.own a.triple (a.subarray b e m).2.2 = Arr.own a.triple m + (if (a.subarray b e m).1 = .ok then 2 else 0) ∧
+      Arr.Foreign a.triple m (a.subarray b e m).2.2) ∧
+    (Arr.own a.triple (a.copyShallow m).2.2 = Arr.own a.triple m + (if (a.copyShallow m).1 = .ok then 2 else 0) ∧
+      Arr.Foreign a.triple m (a.copyShallow m).2.2) ∧
+    (Arr.own a.triple (a.copyDeep cp m).2.2.2 = Arr.own a.triple m + (if (a.copyDeep cp m).1 = .ok then 2 else 0) ∧
+      Arr.Foreign a.triple m (a.copyDeep cp m).2.2.2) ∧
+    (Arr.own a.triple (a.filter p m).2.2.2 = Arr.own a.triple m + (if (a.filter p m).1 = .ok then 2 else 0) ∧
+      Arr.Foreign a.triple m (a.filter p m).2.2.2) ∧
+    ((a.subarray b e m).2.2.fault = m.fault ∧ (a.copyShallow m).2.2.fault = m.fault ∧
+      (a.copyDeep cp m).2.2.2.fault = m.fault ∧ (a.filter p m).2.2.2.fault = m.fault) := by
+  refine ⟨⟨(Arr.subarray_led a b e m).1, (Arr.subarray_led a b e m).2.1⟩,
+    ⟨(Arr.copyShallow_led a m).1, (Arr.copyShallow_led a m).2.1⟩,
+    ⟨(Arr.copyDeep_led cp a m).1, (Arr.copyDeep_led cp a m).2.1⟩,
+    ⟨(Arr.filter_led p a m).1, (Arr.filter_led p a m).2.1⟩, ?_, ?_, ?_, ?_⟩
+  · rcases Arr.subarray_spec a b e m hinv with ⟨_, _, _, s3⟩ | ⟨_, _, _, _, _, s4⟩ | ⟨_, _, _, r, _, _, _, _, _, _, s4⟩
+    · rw [s3]
+    · exact s4
+    · exact s4
+  · rcases Arr.copyShallow_spec a m hinv with ⟨_, _, _, _, s4⟩ | ⟨_, _, r, _, _, _, _, _, _, s4⟩ <;> exact s4
+  · rcases Arr.copyDeep_spec cp a m hinv with ⟨_, _, _, _, s4⟩ | ⟨_, _, r, _, _, _, _, _, _, _, s4⟩ <;> exact s4
+  · rcases Arr.filter_spec p a m hinv with ⟨_, _, _, s3⟩ | ⟨_, _, _, _, _, s4⟩ | ⟨_, _, _, r, _, _, _, _, _, _, _, s4⟩
+    · rw [s3]
+    · exact s4
+    · exact s4
 
-/-- `cc_array_destroy` releases the two blocks and nothing else -/
-theorem destroy_ledger (a : Arr) (m : Mem) (hlive : 2 ≤ m.live) :
-    (a.destroy m).live = m.live - 2 ∧ (a.destroy m).fault = m.fault := Arr.destroy_spec a m
+/-- `cc_array_destroy` releases the two blocks through the array's own triple and nothing else -/
+theorem destroy_ledger (a : Arr) (m : Mem) (hlive : 2 ≤ Arr.own a.triple m) :
+    Arr.own a.triple (a.destroy m) = Arr.own a.triple m - 2 ∧ (a.destroy m).fault = m.fault ∧
+    Arr.Foreign a.triple m (a.destroy m) :=
+  ⟨(Arr.destroy_spec a m hlive).1, (Arr.destroy_spec a m hlive).2, Arr.destroy_foreign a m⟩
 
 /-- (c) `cc_array_destroy_cb` hands exactly the held elements, in index order, to the callback, then
 releases the two blocks -/
-theorem destroy_cb_visits_each_once (a : Arr) (m : Mem) (hinv : a.Inv) (hlive : 2 ≤ m.live) :
-    (a.destroyCb m).1 = a.abs ∧ (a.destroyCb m).2.live = m.live - 2 ∧ (a.destroyCb m).2.fault = m.fault :=
-  Arr.destroyCb_spec a m hinv
+theorem destroy_cb_visits_each_once (a : Arr) (m : Mem) (hinv : a.Inv) (hlive : 2 ≤ Arr.own a.triple m) :
+    (a.destroyCb m).1 = a.abs ∧ Arr.own a.triple (a.destroyCb m).2 = Arr.own a.triple m - 2 ∧
+    (a.destroyCb m).2.fault = m.fault :=
+  Arr.destroyCb_spec a m hinv hlive
 
 /-- (c) `cc_array_remove_all_free` hands every non-NULL element to `free` (count), empties the array
 and touches no block of the array itself -/
@@ -117,5 +137,16 @@ theorem zip_nofault_ledger (a1 a2 : Arr) (it : ArrIter) (z : Spec.Seq.ZipCursor)
   obtain ⟨_, sl, sf⟩ := Arr.zipAdd_sim a1 a2 it z x y m h1 h2 hs
   exact ⟨⟨sl, sf⟩, (Arr.zipRemove_sim a1 a2 it z m h1 h2 hs).2.2.2.2.2.2.2.1,
     (Arr.zipReplace_sim a1 a2 it z x y m h1 h2 hs).2.2.2.2.2.2.2.1, (Arr.zipNext_sim a1 a2 it z m h1 h2 hs).2.2.2⟩
+
+/-! Non-vacuity: a default-constructed array (C-library triple) grows, is filtered and destroyed:
+only the C-library counter moves and it returns to zero. -/
+example :
+    let r := Arr.new 1 (fun c => 2 * c) (fun _ => false) {} .libc
+    let cfg : Cfg := ⟨fun v => v % 2 == 0, fun x y => (x : Int) - y, fun x y => x + y, id⟩
+    (r.2.1.map fun a =>
+      let h := a.run cfg [.add 1, .add 2, .add 3, .filterMut, .trimCapacity] r.2.2
+      (h.2.1.abs, h.2.2.liveLibc, h.2.2.live, h.2.2.fault, (h.2.1.destroy h.2.2).liveLibc, (h.2.1.destroy h.2.2).fault)) =
+    some ([2], 2, 0, false, 0, false) := by
+  decide
 
 end CC.Properties.C06Array
